@@ -324,7 +324,7 @@ def r2(ctx, R):
         R.bad(pr, pr.node, "reported mode is not the stored one", stmt="return")
 
 
-@rule("C10.R3", "C10", "SIB", "relative rebinding plumbing; ids compared on whole path components", min_instances=6)
+@rule("C10.R3", "C10", "SIB", "relative rebinding plumbing; ids compared on whole path components", min_instances=6, also=("C04",))
 def r3(ctx, R):
     """get_relative_interface maps (sub space, base space, base value) through
     SpaceGraph.get_relative; new_ref/change_ref record is_relative on the sub reference;
@@ -407,10 +407,10 @@ def r3(ctx, R):
                 if '"."' not in ast.unparse(x).replace("'", '"'):
                     R.bad(f, x, "dotted ids are compared by plain string prefix: 'S' matches 'S2.x' - an object of a "
                                 "sibling space with a common name prefix is taken to be inside the tree")
-    for f in ctx.repo.all_funcs(modules=["modelx.core.space", "modelx.core.model"]):
+    for f in ctx.repo.all_funcs(modules=["modelx.core.space", "modelx.core.model", "modelx.core.util"]):
         for c in q.calls(f, name=("startswith", "endswith")):
             r_ = call_recv(c) or ""
-            if r_ in ("impl", "node", "idstr", "basevalue", "subspace", "basespace") or r_.endswith("idstr"):
+            if r_ in ("impl", "node", "idstr", "basevalue", "subspace", "basespace", "target", "namespace") or r_.endswith("idstr"):
                 n += 1
                 R.inst("%s: prefix test `%s`" % (f.short, norm(c)))
                 a0 = c.args[0] if c.args else None
